@@ -203,6 +203,17 @@ func Execute(p *Plan, o ExecOpts) (*ExecOut, error) {
 		if err != nil {
 			return nil, fmt.Errorf("conformance run: %w", err)
 		}
+		if len(conf.Failures) > 0 && pipelineIsSubject(p.Prop) {
+			// C07 and C08 speak about what the NODE does with a block. If FinalizeBlock/Commit disagrees with
+			// the module's own block hook driven directly, the hook's good behaviour is not the node's: that
+			// is a violation of these two properties, not an internal matter of the harness.
+			for _, f := range conf.Failures[:1] {
+				f.Sig = pipelineSig
+				f.Detail = "the node (InitChain / FinalizeBlock / Commit with signed transactions) does not do what the module's block hook and message handlers do when driven directly: " + f.Detail
+				viol = append(viol, f)
+			}
+			conf.Failures = nil
+		}
 		if len(conf.Failures) > 0 {
 			f := conf.Failures[0]
 			return nil, fmt.Errorf("the emulation does not conform to the real ABCI pipeline (this is a defect of the harness, not a verdict on the property): %s\n  history: %v", f.Detail, opsStr(f.Hist))
@@ -283,6 +294,11 @@ func findScenario(p *Plan, name string) *Scenario {
 	return &Scenario{Name: name}
 }
 
+const pipelineSig = "node-pipeline-disagrees-with-module"
+
+// pipelineIsSubject: the properties whose statement is about block processing by the node itself.
+func pipelineIsSubject(prop string) bool { return prop == "C07" || prop == "C08" }
+
 func confirm(p *Plan, v Violation) error {
 	sc := findScenario(p, v.Scen)
 	if sc.Menu == nil && sc.Cfg.Balances == nil {
@@ -346,6 +362,19 @@ func ReplayFromFile(path string) (bool, string, error) {
 			}
 		}
 		return true, fmt.Sprintf("not reproduced: property=%s signature=%s holds on this tree", rf.Violation.Prop, rf.Violation.Sig), nil
+	}
+	if rf.Violation.Sig == pipelineSig {
+		for _, cs := range conformanceScenarios(rf.Tier) {
+			if cs.Name != rf.Scenario {
+				continue
+			}
+			c := RunConformance(rf.Violation.Prop, cs, [][]Op{rf.Violation.Hist}, 1)
+			if len(c.Failures) > 0 {
+				return false, fmt.Sprintf("REPRODUCED property=%s signature=%s\n  %s", rf.Violation.Prop, rf.Violation.Sig, c.Failures[0].Detail), nil
+			}
+			return true, fmt.Sprintf("not reproduced: property=%s signature=%s: the node and the module agree on the recorded history", rf.Violation.Prop, rf.Violation.Sig), nil
+		}
+		return false, "", fmt.Errorf("conformance scenario %q not found", rf.Scenario)
 	}
 	sc := findScenario(p, rf.Scenario)
 	w, err := world.New(sc.Cfg)
